@@ -110,8 +110,10 @@ func doRepair(c *kit.Ctx, x rpCase) {
 	now := baseTime()
 	if x.Anchor >= 0 {
 		p := x.Policies[x.Anchor]
-		cd, _ := firstCond(x.Conds, p.Type)
-		now = condTime(cd).Add(p.Tol)
+		// (a condition that is absent or has no transition time would put the clock into year 1)
+		if cd, ok := firstCond(x.Conds, p.Type); ok && !cd.Zero {
+			now = condTime(cd).Add(p.Tol)
+		}
 	}
 	now = now.Add(x.Delta)
 	clk := clock.NewFakeClock(now)
@@ -126,14 +128,15 @@ func doRepair(c *kit.Ctx, x rpCase) {
 	node := &corev1.Node{ObjectMeta: metav1.ObjectMeta{Name: "self", Labels: label(x.Pool)}, Spec: corev1.NodeSpec{ProviderID: x.PID},
 		Status: corev1.NodeStatus{Conditions: nodeConds(x.Conds)}}
 	if x.InAPI {
-		kit.Apply(ctx, w.inner, node)
+		w.add(node)
 	}
 	for _, n := range x.Nodes {
-		kit.Apply(ctx, w.inner, &corev1.Node{ObjectMeta: metav1.ObjectMeta{Name: n.Name, Labels: label(n.Pool)},
+		w.add(&corev1.Node{ObjectMeta: metav1.ObjectMeta{Name: n.Name, Labels: label(n.Pool)},
 			Spec: corev1.NodeSpec{ProviderID: "fake://" + n.Name}, Status: corev1.NodeStatus{Conditions: nodeConds(n.Conds)}})
 	}
 	annotTime := map[string]time.Time{"past": now.Truncate(time.Second).Add(-10 * time.Second), "now": now.Truncate(time.Second),
 		"future": now.Truncate(time.Second).Add(10 * time.Second)}
+	var deleting []*v1.NodeClaim
 	for _, cl := range x.Claims {
 		nc := &v1.NodeClaim{ObjectMeta: metav1.ObjectMeta{Name: cl.Name, Labels: map[string]string{}, Annotations: map[string]string{}},
 			Spec: v1.NodeClaimSpec{NodeClassRef: classRef(true)}, Status: v1.NodeClaimStatus{ProviderID: cl.PID, NodeName: "self"}}
@@ -149,15 +152,19 @@ func doRepair(c *kit.Ctx, x rpCase) {
 		if cl.Deleting {
 			nc.Finalizers = []string{v1.TerminationFinalizer}
 		}
-		kit.Apply(ctx, w.inner, nc)
+		w.add(nc)
 		if cl.Deleting {
-			markDeleting(ctx, w.inner, nc)
+			deleting = append(deleting, nc)
 		}
 	}
 	if x.PoolObj {
 		np := &v1.NodePool{ObjectMeta: metav1.ObjectMeta{Name: "pool"}}
 		np.Spec.Template.Spec.NodeClassRef = classRef(true)
-		kit.Apply(ctx, w.inner, np)
+		w.add(np)
+	}
+	w.build()
+	for _, nc := range deleting {
+		markDeleting(ctx, w.inner, nc)
 	}
 	cp := newProvider()
 	cp.RepairPolicy = nil
